@@ -66,6 +66,25 @@ Theorem C08_chain_rename_then_plain : forall cid k f ck fs o (hops : list (list 
     /\ hd_error (count_keys (PPlural k fs' o')) = Some (k, RPlural).
 Proof. exact chain_rename_then_plain. Qed.
 
+(** code generation: the keys the `move ||` closure of a range / plural clones before capturing them ([branch_keys]:
+    `get_keys_inner(.., is_top = false)` folded over the branches) are the union of the branches' variables, components
+    and counts, whatever the order of the branches and wherever the literal-only branches stand *)
+Theorem C08_range_closure_keys_union : forall bs s,
+  branch_keys bs = KOk s ->
+  sig_is s (flat_map events bs) /\
+  (forall bs' s', Permutation bs bs' -> branch_keys bs' = KOk s' -> sig_equiv s s').
+Proof. exact range_closure_keys_union. Qed.
+
+(** ... and (fixes/C08-count-moved-into-range-closure.diff) the count key itself *)
+Theorem C08_closure_owns_count : forall ck bs s, closure_keys ck bs = KOk s -> In ck (map fst (sig_vars s)).
+Proof. exact closure_keys_count. Qed.
+
+(** the `is_top = true` variant of the fold loses `{{ who }}` of a branch that precedes a literal-only branch *)
+Example C08_branch_keys_top_loses :
+  branch_keys [PVar 1 0; PLit LString] = KOk (IInterpol (mk_ik [] [(1, mk_vi [0] None)])) /\
+  branch_keys_top [PVar 1 0; PLit LString] = KOk (ILit LString).
+Proof. exact branch_keys_top_loses. Qed.
+
 (** one builder field per variable and per component *)
 Theorem C08_fields : forall ik x, In x (make_fields ik) <-> In x (map fst (ik_vars ik)) \/ In x (ik_comps ik).
 Proof. exact make_fields_In. Qed.
